@@ -146,6 +146,9 @@ func (s *SSL) checkValidCertPEM(raw []byte) (*x509.Certificate, error) {
 			x509crt = crt
 		}
 	}
+	if x509crt == nil {
+		return nil, fmt.Errorf("no certificate found")
+	}
 	return x509crt, nil
 }
 
